@@ -267,15 +267,13 @@ func genExt(g *h.G) {
 			op = uint32(wallet.V5MsgTypeSignedInternal)
 		}
 		seqno, vu := u32Choice(g), u32Choice(g)
-		body, err := buildBodyX(seed, wc, net, op, seqno, int64(vu), raws, parseExts(exts))
-		if err != nil {
-			panic(err)
-		}
-		sg, _, err := splitSigned(wallet.V5R1, body)
+		// the expected body, built by hand (c14ref.go): nothing here goes through the wallet package
+		sg, err := refSigned(wallet.V5R1, refIdsOf(wallet.V5R1, wc, "_", net), op, seqno, vu, 0, raws, exts)
 		if err != nil {
 			panic(err)
 		}
 		d, _ := sg.Hash()
+		body := refAttach(wallet.V5R1, sg, ed25519.Sign(key, d))
 		margs := msgsArg(raws)
 		g.Count("ext_actions_" + fmt.Sprint(strings.Count(exts, "/")+1))
 		g.NonTrivial("ext/" + seed)
@@ -295,8 +293,8 @@ func genExt(g *h.G) {
 		}
 		q := g.U64()
 		g.Emit("m.extn", fmt.Sprint(q), msgsX, exts)
-		if xb, err := buildExtn(q, msgsX, exts); err == nil && exts != "e" {
-			g.Emit("m.decode", "11", cellTable(rebuildExt(&sentInfo{destWc: -1, destAddr: self}, xb)))
+		if exts != "e" {
+			g.Emit("m.decode", "11", cellTable(rebuildExt(&sentInfo{destWc: -1, destAddr: self}, refExtension(q, msgsX, exts))))
 		}
 	}
 }
